@@ -241,10 +241,14 @@ func VerifC06_BundleAddChildren() {
 	ib, _ := inner.MarshalBinary()
 	kids := [][]byte{ib}
 	ba := &BundleAdd{BundleID: vr.U32("bundle"), Flags: vr.U16("bflags"), Message: inner}
-	if vr.Bool("props") {
+	np := 0
+	if k == 6 {
+		np = vr.IntRange("nprops", 0, 2) // property lists behind one small embedded kind (set-config)
+	}
+	for i := 0; i < np; i++ {
 		p := NewBundlePropertyExperimenter()
 		p.ExperimenterID, p.ExperimenterType = vr.U32("expid"), vr.U32("exptype")
-		p.Length = p.Len()
+		p.data = vr.Bytes("propdata", []int{0, 3, 4}[vr.Choice("propdatalen", 3)])
 		pb, _ := p.MarshalBinary()
 		kids = append(kids, pb)
 		ba.Properties = append(ba.Properties, *p)
